@@ -189,8 +189,12 @@ def enumerate_case(contract, case, evaluate, maxlen, cap, seed, stop_after_failu
                 stats["errors"].append({"inputs": S.export, "error": res.get("spec_error") or res.get("reason")})
             return
         bad = [k for k, v in res.get("clauses", {}).items() if v is False and not k.startswith("canary.")]
-        if bad and len(stats["failures"]) < stop_after_failures:
-            stats["failures"].append({"clauses": bad, "inputs": dict(S.export), "outcome": oc, "exc": res.get("exc")})
+        if bad:
+            # failures inside a recorded region (clause names tagged `@region`) must never use up the room of the others
+            tagged = all("@" in k for k in bad)
+            kept = [f for f in stats["failures"] if f["tagged"] == tagged]
+            if len(kept) < stop_after_failures:
+                stats["failures"].append({"clauses": bad, "inputs": dict(S.export), "outcome": oc, "exc": res.get("exc"), "tagged": tagged})
 
     # Phase 1: lexicographic (odometer) enumeration.  It is exhaustive when it finishes within a third of the budget.  When
     # it does not, a lexicographic PREFIX is a poor sample (the early choice points -- array lengths and labels -- hardly
